@@ -59,7 +59,12 @@ Inductive sk :=
                                                   are off except the ones copied from the caller *)
 | If (c : cond) (th el : list sk)
 | Loop (body : list sk)                        (* for / range                                    *)
-| Return
+| Return                                       (* return; the error result (if any) is whatever
+                                                  the call right before it answered              *)
+| ReturnOk                                     (* return ..., nil                                *)
+| ReturnErr                                    (* return ..., <an error known to be non-nil>     *)
+| Pure                                         (* an error variable is assigned by a call that is
+                                                  not in the skeleton: nil or not                *)
 | Unknown (what : string).                     (* a construct the translator does not understand *)
 
 Definition block := list sk.
@@ -73,24 +78,26 @@ Fixpoint lookup (n : string) (t : table) : option block :=
 
 (* ---- the language of a skeleton ------------------------------------------------------ *)
 
-(* three-valued evaluation under an assignment of the flags; None = undetermined *)
-Fixpoint eval_cond (env : string -> bool) (c : cond) : option bool :=
+(* three-valued evaluation under an assignment of the flags and, possibly, of the error test;
+   None = undetermined *)
+Fixpoint eval_cond (env : string -> bool) (err : option bool) (c : cond) : option bool :=
   match c with
   | CFlag f => Some (env f)
-  | CNot a => option_map negb (eval_cond env a)
+  | CNot a => option_map negb (eval_cond env err a)
   | CAnd a b =>
-      match eval_cond env a, eval_cond env b with
+      match eval_cond env err a, eval_cond env err b with
       | Some false, _ | _, Some false => Some false
       | Some true, Some true => Some true
       | _, _ => None
       end
   | COr a b =>
-      match eval_cond env a, eval_cond env b with
+      match eval_cond env err a, eval_cond env err b with
       | Some true, _ | _, Some true => Some true
       | Some false, Some false => Some false
       | _, _ => None
       end
-  | CErr | CData => None
+  | CErr => err
+  | CData => None
   end.
 
 Definition subst_ev (ev : string) (k : kind) : kind :=
@@ -107,7 +114,7 @@ Inductive rsk :=
 | RRun (i : nat) (inherit : list string)
 | RIf (c : cond) (th el : list rsk)
 | RLoop (body : list rsk)
-| RReturn
+| RReturn | RReturnOk | RReturnErr | RPure
 | RDead.
 
 Fixpoint index_of (n : string) (t : table) : nat :=
@@ -124,6 +131,9 @@ Fixpoint resolve (t : table) (s : sk) : rsk :=
   | If c th el => RIf c (map (resolve t) th) (map (resolve t) el)
   | Loop b => RLoop (map (resolve t) b)
   | Return => RReturn
+  | ReturnOk => RReturnOk
+  | ReturnErr => RReturnErr
+  | Pure => RPure
   | Unknown _ => RDead
   end.
 
@@ -132,74 +142,110 @@ Definition resolve_table (t : table) : rtable := map (fun nb => map (resolve t) 
 
 (* [accepts]: is the sequence of effect kinds [inp] a path through the skeleton?
    Sets of input positions are the bits of an N (bit p = "the first p kinds are consumed").
-   [ex s P] = (positions after s falls through, positions at which s returns from the
-   enclosing function) when s is entered at the positions P.  Undetermined conditions go
-   both ways; a loop runs any number of times (least fixpoint); a call of a tracked function
-   is its body, whose returns fall through in the caller; Unknown is a dead end.
-   [fuel] bounds the call depth plus the loop iterations. *)
+   A state is a pair (ok, err) of such sets: the positions at which the call right before
+   this node answered nil, resp. an error (both, when the node before is not a call of a
+   tracked function).  [ex s st] = (state after s falls through, state at which s returns
+   from the enclosing function).  Conditions are evaluated per component, CErr being false
+   on the ok component and true on the err component; what stays undetermined goes both ways;
+   a loop runs any number of times (least fixpoint); a call of a tracked function is its
+   body, and the callee's ReturnOk / ReturnErr / Return decide the component the caller
+   continues in; after an effect, an If, a Loop or a Pure both components are possible;
+   Unknown is a dead end.  [fuel] bounds the call depth plus the loop iterations. *)
+(* for every kind that occurs in the input, the set of positions at which it occurs *)
+Fixpoint add_mask (k : kind) (bit : N) (m : list (kind * N)) : list (kind * N) :=
+  match m with
+  | [] => [(k, bit)]
+  | (k', b) :: r => if kind_eqb k k' then (k', N.lor b bit) :: r else (k', b) :: add_mask k bit r
+  end.
+
+Fixpoint masks_of (l : list kind) (bit : N) (m : list (kind * N)) : list (kind * N) :=
+  match l with
+  | [] => m
+  | x :: r => masks_of r (N.double bit) (add_mask x bit m)
+  end.
+
+Fixpoint get_mask (k : kind) (m : list (kind * N)) : N :=
+  match m with
+  | [] => 0%N
+  | (k', b) :: r => if kind_eqb k k' then b else get_mask k r
+  end.
+
 Section Accepts.
   Variable t : rtable.
-  Variable inp : list kind.
+  Variable masks : list (kind * N).
 
-  (* the positions p with inp[p] = k *)
-  Fixpoint mask (k : kind) (l : list kind) (bit : N) : N :=
-    match l with
-    | [] => 0%N
-    | x :: r => let m := mask k r (N.double bit) in if kind_eqb k x then N.lor bit m else m
-    end.
+  Definition st := (N * N)%type.
+  Definition st0 : st := (0%N, 0%N).
+  Definition both (p : N) : st := (p, p).
+  Definition all (s : st) : N := N.lor (fst s) (snd s).
+  Definition join (a b : st) : st := (N.lor (fst a) (fst b), N.lor (snd a) (snd b)).
 
-  Fixpoint ex (fuel : nat) (env : string -> bool) (ev : string) (s : rsk) (P : N) {struct fuel}
-    : N * N :=
+  (* the part of the state in which a condition may have the value v, given its value on
+     the ok component (eo) and on the err component (ee) *)
+  Definition may (eo ee : option bool) (v : bool) (s : st) : st :=
+    let pick (e : option bool) (p : N) :=
+      match e with
+      | Some b => if Bool.eqb b v then p else 0%N
+      | None => p
+      end in
+    (pick eo (fst s), pick ee (snd s)).
+
+  Fixpoint ex (fuel : nat) (env : string -> bool) (ev : string) (s : rsk) (P : st) {struct fuel}
+    : st * st :=
     match fuel with
-    | 0 => (0%N, 0%N)
+    | 0 => (st0, st0)
     | S fuel =>
-        if N.eqb P 0 then (0%N, 0%N) else
-        let blk := fix blk (env : string -> bool) (ev : string) (b : list rsk) (P : N) {struct b} : N * N :=
+        if N.eqb (all P) 0 then (st0, st0) else
+        let blk := fix blk (env : string -> bool) (ev : string) (b : list rsk) (P : st) {struct b} : st * st :=
                      match b with
-                     | [] => (P, 0%N)
+                     | [] => (P, st0)
                      | a :: r =>
                          let '(n1, r1) := ex fuel env ev a P in
                          let '(n2, r2) := blk env ev r n1 in
-                         (n2, N.lor r1 r2)
+                         (n2, join r1 r2)
                      end in
+        (* a callee: entered with both components, its returns fall through in the caller *)
+        let callee (env : string -> bool) (ev : string) (b : list rsk) : st * st :=
+          let '(n, r) := blk env ev b (both (all P)) in
+          ((N.lor (all n) (fst r), N.lor (all n) (snd r)), st0) in
         match s with
-        | RCall k => (N.double (N.land P (mask (subst_ev ev k) inp 1%N)), 0%N)
+        | RCall k => (both (N.double (N.land (all P) (get_mask (subst_ev ev k) masks))), st0)
         | RFn i arg =>
             match nth_error t i with
-            | Some b =>
-                let '(n, r) := blk env (if String.eqb arg "" then ev else arg) b P in
-                (N.lor n r, 0%N)
-            | None => (0%N, 0%N)
+            | Some b => callee env (if String.eqb arg "" then ev else arg) b
+            | None => (st0, st0)
             end
         | RRun i inh =>
             match nth_error t i with
-            | Some b =>
-                let '(n, r) := blk (inherit_env env inh) "" b P in
-                (N.lor n r, 0%N)
-            | None => (0%N, 0%N)
+            | Some b => callee (inherit_env env inh) "" b
+            | None => (st0, st0)
             end
         | RIf c th el =>
-            match eval_cond env c with
-            | Some true => blk env ev th P
-            | Some false => blk env ev el P
-            | None =>
-                let '(n1, r1) := blk env ev th P in
-                let '(n2, r2) := blk env ev el P in
-                (N.lor n1 n2, N.lor r1 r2)
-            end
+            let eo := eval_cond env (Some false) c in
+            let ee := eval_cond env (Some true) c in
+            let '(n1, r1) := blk env ev th (may eo ee true P) in
+            let '(n2, r2) := blk env ev el (may eo ee false P) in
+            (both (N.lor (all n1) (all n2)), join r1 r2)
         | RLoop b =>
-            let '(n, r) := blk env ev b P in
-            let P' := N.lor P n in
-            if N.eqb P' P then (P, r)
-            else let '(n', r') := ex fuel env ev (RLoop b) P' in (n', N.lor r r')
-        | RReturn => (0%N, P)
-        | RDead => (0%N, 0%N)
+            let '(n, r) := blk env ev b (both (all P)) in
+            let A := all P in
+            let A' := N.lor A (all n) in
+            if N.eqb A' A then (both A, r)
+            else let '(n', r') := ex fuel env ev (RLoop b) (both A') in (n', join r r')
+        | RReturn => (st0, P)
+        | RReturnOk => (st0, (all P, 0%N))
+        | RReturnErr => (st0, (0%N, all P))
+        | RPure => (both (all P), st0)
+        | RDead => (st0, st0)
         end
     end.
 
-  Definition raccepts (fuel : nat) (entry : nat) (env : string -> bool) : bool :=
-    N.testbit (fst (ex fuel env "" (RFn entry "") 1%N)) (N.of_nat (List.length inp)).
+  Definition final (fuel : nat) (entry : nat) (env : string -> bool) : N :=
+    all (fst (ex fuel env "" (RFn entry "") (both 1%N))).
 End Accepts.
+
+Definition raccepts (t : rtable) (inp : list kind) (fuel : nat) (entry : nat) (env : string -> bool) : bool :=
+  N.testbit (final t (masks_of inp 1%N []) fuel entry env) (N.of_nat (List.length inp)).
 
 Definition accepts (t : table) (inp : list kind) (fuel : nat) (entry : string) (env : string -> bool) : bool :=
   raccepts (resolve_table t) inp fuel (index_of entry t) env.
